@@ -125,7 +125,8 @@ func (rg *RuleGroup) DeleteByRange(start, end int) {
 func (rg *RuleGroup) DeleteByMsg(msg string) {
 	var kept []Rule
 	for _, r := range rg.rules {
-		if r.Msg.String() != msg {
+		// rules without a msg action have no message to compare
+		if r.Msg == nil || r.Msg.String() != msg {
 			kept = append(kept, r)
 		}
 	}
